@@ -137,6 +137,9 @@ HllArray<A>* HllArray<A>::newHll(const void* bytes, size_t len, const A& allocat
   AuxHashMap<A>* auxHashMap = nullptr;
   typedef std::unique_ptr<AuxHashMap<A>, std::function<void(AuxHashMap<A>*)>> aux_hash_map_ptr;
   aux_hash_map_ptr aux_ptr;
+  if (auxCount > 0 && tgtHllType != target_hll_type::HLL_4) {
+    throw std::invalid_argument("Aux hash map entries in the image of a sketch that is not HLL_4");
+  }
   if (auxCount > 0) { // necessarily TgtHllType == HLL_4
     uint8_t auxLgIntArrSize = data[4];
     const size_t offset = hll_constants::HLL_BYTE_ARR_START + arrayBytes;
@@ -219,6 +222,9 @@ HllArray<A>* HllArray<A>::newHll(std::istream& is, const A& allocator) {
   
   read(is, sketch->hllByteArr_.data(), sketch->getHllByteArrBytes());
   
+  if (auxCount > 0 && tgtHllType != target_hll_type::HLL_4) {
+    throw std::invalid_argument("Aux hash map entries in the image of a sketch that is not HLL_4");
+  }
   if (auxCount > 0) { // necessarily TgtHllType == HLL_4
     uint8_t auxLgIntArrSize = listHeader[4];
     AuxHashMap<A>* auxHashMap = AuxHashMap<A>::deserialize(is, lgK, auxCount, auxLgIntArrSize, comapctFlag, allocator);
